@@ -316,3 +316,11 @@ class SympyCondition(Condition):
                 # Measurements get prepended with "m_", so the condition needs to be too.
                 return f'm_{self.expr.lhs}=={self.expr.rhs}'
         raise ValueError('QASM is defined only for SympyConditions of type key == constant.')
+
+    def _qasm_(self, args: cirq.QasmArgs, **kwargs) -> str | None:
+        args.validate_version('2.0', '3.0')
+        _ = self.qasm  # raises ValueError unless the expression is key == constant
+        key_str = str(self.keys[0])
+        if key_str not in args.meas_key_id_map:
+            raise ValueError(f'Key "{key_str}" not in QasmArgs.meas_key_id_map.')
+        return f'{args.meas_key_id_map[key_str]}=={self.expr.rhs}'
